@@ -343,7 +343,7 @@ pub fn record(args: &[String]) {
 	let steps: u64 = arg(args, 3, "steps");
 	let mut tw = TraceWriter::create(&args[4]);
 	let mut rng = Rng::new(seed ^ 0x70c);
-	let maxp = PeriodType::MAX as u64;
+	let maxp = maxp();
 	let subjects: &[&str] = match family {
 		"sel" => &["Highest", "Lowest", "HighestLowestDelta", "HighestIndex", "LowestIndex", "SMM", "MadMedian"],
 		"cross" => &["CrossAbove", "CrossUnder", "Cross"],
